@@ -1,57 +1,134 @@
 // Shims for the BTreeMap probes that vstd does not specify (rule R-range).
 // Executable bodies call the real std API; the `ensures` are the trusted part
-// (A5): `range(..)` yields keys in ascending `Ord` order, `Ord` on u64 is `<`,
+// (A5): `range(..)` yields keys in ascending `Ord` order, `Ord` on u64 is `<=`,
 // `Ord` on (u64, u64) is lexicographic.
 pub open spec fn lex_le(a: (u64, u64), b: (u64, u64)) -> bool {
     a.0 < b.0 || (a.0 == b.0 && a.1 <= b.1)
 }
 
+pub trait KeyOrd: Sized {
+    spec fn kle(self, o: Self) -> bool;
+}
+
+impl KeyOrd for u64 {
+    open spec fn kle(self, o: u64) -> bool {
+        self <= o
+    }
+}
+
+impl KeyOrd for (u64, u64) {
+    open spec fn kle(self, o: (u64, u64)) -> bool {
+        lex_le(self, o)
+    }
+}
+
+// k lies in the probed range; each shim instantiates `inr`
+pub open spec fn probe_first<K: KeyOrd, V>(m: Map<K, V>, inr: spec_fn(K) -> bool, r: Option<(&K, &V)>) -> bool {
+    match r {
+        Some((k, v)) => m.dom().contains(*k) && m[*k] == *v && inr(*k)
+            && forall|k2: K| #[trigger] m.dom().contains(k2) && inr(k2) ==> (*k).kle(k2),
+        None => forall|k2: K| #[trigger] m.dom().contains(k2) ==> !inr(k2),
+    }
+}
+
+pub open spec fn probe_last<K: KeyOrd, V>(m: Map<K, V>, inr: spec_fn(K) -> bool, r: Option<(&K, &V)>) -> bool {
+    match r {
+        Some((k, v)) => m.dom().contains(*k) && m[*k] == *v && inr(*k)
+            && forall|k2: K| #[trigger] m.dom().contains(k2) && inr(k2) ==> k2.kle(*k),
+        None => forall|k2: K| #[trigger] m.dom().contains(k2) ==> !inr(k2),
+    }
+}
+
+// lo..
 #[verifier::external_body]
-pub fn btree_first_ge<'a, V>(m: &'a BTreeMap<(u64, u64), V>, lo: (u64, u64)) -> (r: Option<(&'a (u64, u64), &'a V)>)
-    ensures
-        match r {
-            Some((k, v)) => m@.dom().contains(*k) && m@[*k] == *v && lex_le(lo, *k)
-                && forall|k2: (u64, u64)| #[trigger] m@.dom().contains(k2) && lex_le(lo, k2) ==> lex_le(*k, k2),
-            None => forall|k2: (u64, u64)| #[trigger] m@.dom().contains(k2) ==> !lex_le(lo, k2),
-        },
+pub fn btree_first_ge<'a, K: KeyOrd + Ord, V>(m: &'a BTreeMap<K, V>, lo: K) -> (r: Option<(&'a K, &'a V)>)
+    ensures probe_first(m@, |k: K| lo.kle(k), r),
 {
     m.range(lo..).next()
 }
 
 #[verifier::external_body]
-pub fn btree_last<'a, V>(m: &'a BTreeMap<(u64, u64), V>) -> (r: Option<(&'a (u64, u64), &'a V)>)
-    ensures
-        match r {
-            Some((k, v)) => m@.dom().contains(*k) && m@[*k] == *v
-                && forall|k2: (u64, u64)| #[trigger] m@.dom().contains(k2) ==> lex_le(k2, *k),
-            None => forall|k2: (u64, u64)| !(#[trigger] m@.dom().contains(k2)),
-        },
+pub fn btree_last_ge<'a, K: KeyOrd + Ord, V>(m: &'a BTreeMap<K, V>, lo: K) -> (r: Option<(&'a K, &'a V)>)
+    ensures probe_last(m@, |k: K| lo.kle(k), r),
 {
-    m.iter().next_back()
+    m.range(lo..).next_back()
 }
 
+// ..hi
 #[verifier::external_body]
-pub fn btree_last_lt<'a, V>(m: &'a BTreeMap<u64, V>, hi: u64) -> (r: Option<(&'a u64, &'a V)>)
-    ensures
-        match r {
-            Some((k, v)) => m@.dom().contains(*k) && m@[*k] == *v && *k < hi
-                && forall|k2: u64| #[trigger] m@.dom().contains(k2) && k2 < hi ==> k2 <= *k,
-            None => forall|k2: u64| #[trigger] m@.dom().contains(k2) ==> !(k2 < hi),
-        },
+pub fn btree_last_lt<'a, K: KeyOrd + Ord, V>(m: &'a BTreeMap<K, V>, hi: K) -> (r: Option<(&'a K, &'a V)>)
+    ensures probe_last(m@, |k: K| k.kle(hi) && k != hi, r),
 {
     m.range(..hi).next_back()
 }
 
 #[verifier::external_body]
-pub fn btree_first_in_incl<'a, V>(m: &'a BTreeMap<u64, V>, lo: u64, hi: u64) -> (r: Option<(&'a u64, &'a V)>)
-    requires
-        lo <= hi,   // std panics on an inverted range
-    ensures
-        match r {
-            Some((k, v)) => m@.dom().contains(*k) && m@[*k] == *v && lo <= *k <= hi
-                && forall|k2: u64| #[trigger] m@.dom().contains(k2) && lo <= k2 <= hi ==> *k <= k2,
-            None => forall|k2: u64| #[trigger] m@.dom().contains(k2) ==> !(lo <= k2 <= hi),
-        },
+pub fn btree_first_lt<'a, K: KeyOrd + Ord, V>(m: &'a BTreeMap<K, V>, hi: K) -> (r: Option<(&'a K, &'a V)>)
+    ensures probe_first(m@, |k: K| k.kle(hi) && k != hi, r),
+{
+    m.range(..hi).next()
+}
+
+// ..=hi
+#[verifier::external_body]
+pub fn btree_last_le<'a, K: KeyOrd + Ord, V>(m: &'a BTreeMap<K, V>, hi: K) -> (r: Option<(&'a K, &'a V)>)
+    ensures probe_last(m@, |k: K| k.kle(hi), r),
+{
+    m.range(..=hi).next_back()
+}
+
+#[verifier::external_body]
+pub fn btree_first_le<'a, K: KeyOrd + Ord, V>(m: &'a BTreeMap<K, V>, hi: K) -> (r: Option<(&'a K, &'a V)>)
+    ensures probe_first(m@, |k: K| k.kle(hi), r),
+{
+    m.range(..=hi).next()
+}
+
+// lo..=hi   (std panics on an inverted range: precondition)
+#[verifier::external_body]
+pub fn btree_first_in_incl<'a, K: KeyOrd + Ord, V>(m: &'a BTreeMap<K, V>, lo: K, hi: K) -> (r: Option<(&'a K, &'a V)>)
+    requires lo.kle(hi),
+    ensures probe_first(m@, |k: K| lo.kle(k) && k.kle(hi), r),
 {
     m.range(lo..=hi).next()
+}
+
+#[verifier::external_body]
+pub fn btree_last_in_incl<'a, K: KeyOrd + Ord, V>(m: &'a BTreeMap<K, V>, lo: K, hi: K) -> (r: Option<(&'a K, &'a V)>)
+    requires lo.kle(hi),
+    ensures probe_last(m@, |k: K| lo.kle(k) && k.kle(hi), r),
+{
+    m.range(lo..=hi).next_back()
+}
+
+// lo..hi   (std panics when lo > hi: precondition)
+#[verifier::external_body]
+pub fn btree_first_in_excl<'a, K: KeyOrd + Ord, V>(m: &'a BTreeMap<K, V>, lo: K, hi: K) -> (r: Option<(&'a K, &'a V)>)
+    requires lo.kle(hi),
+    ensures probe_first(m@, |k: K| lo.kle(k) && k.kle(hi) && k != hi, r),
+{
+    m.range(lo..hi).next()
+}
+
+#[verifier::external_body]
+pub fn btree_last_in_excl<'a, K: KeyOrd + Ord, V>(m: &'a BTreeMap<K, V>, lo: K, hi: K) -> (r: Option<(&'a K, &'a V)>)
+    requires lo.kle(hi),
+    ensures probe_last(m@, |k: K| lo.kle(k) && k.kle(hi) && k != hi, r),
+{
+    m.range(lo..hi).next_back()
+}
+
+// whole map
+#[verifier::external_body]
+pub fn btree_last<'a, K: KeyOrd + Ord, V>(m: &'a BTreeMap<K, V>) -> (r: Option<(&'a K, &'a V)>)
+    ensures probe_last(m@, |k: K| true, r),
+{
+    m.iter().next_back()
+}
+
+#[verifier::external_body]
+pub fn btree_first<'a, K: KeyOrd + Ord, V>(m: &'a BTreeMap<K, V>) -> (r: Option<(&'a K, &'a V)>)
+    ensures probe_first(m@, |k: K| true, r),
+{
+    m.iter().next()
 }
